@@ -728,7 +728,7 @@ def oracle_l1(cfg, st, out, log):
             elif not same_value(ev[0], d[s]):
                 fails.append('sample %d: %s = %r but its formula %s gives %r on the other values of the same sample'
                              % (i, s, d[s], render(fromlist(sf[s][1])), ev[0]))
-            elif exp is not None and eps_for(sf, consts) == 0 and canon(d[s]) != exp[s]:
+            elif exp is not None and eps_for(sf, consts, symbols) == 0 and canon(d[s]) != exp[s]:
                 fails.append('sample %d: %s = %r, exact evaluation of %s gives %r' % (i, s, d[s], render(fromlist(sf[s][1])), exp[s]))
     return fails
 
@@ -876,13 +876,14 @@ def seen_term(watch, tuples):
     return '[' + '; '.join(rows) + ']'
 
 
-def eps_for(sf, consts):
+def eps_for(sf, consts, symbols=None):
     """0 (exact comparison) unless a non-dyadic-exact constant (pi, e) can enter a formula"""
     used = set()
     for s in sf:
         if sf[s][0] == 'dep':
             used |= expr_vars(fromlist(sf[s][1]))
-    inexact = any(consts[c][0] in ('pi', 'e') for c in consts if c in used and c not in sf)
+    shadowed = sf if symbols is None else symbols
+    inexact = any(consts[c][0] in ('pi', 'e') for c in consts if c in used and c not in shadowed)
     return Fraction(1, 10 ** 9) if inexact else Fraction(0)
 
 
@@ -957,6 +958,7 @@ def level1(ctx, res, rng):
             terms.append('(%s, %s, %s, [%s])' % (sf_term(sf), consts_term(consts), core.qlit(eps_for(sf, consts)), ';\n     '.join(runs)))
             metas.append({'label': label, 'symbols': names, 'sf': {s: (sf[s] if sf[s][0] != 'dep' else render(fromlist(sf[s][1]))) for s in sf},
                           'consts': consts, 'harness_analysis': kind, 'orders': len(runs)})
+    l1_history(ctx, res, rng, terms, metas, dist)
     res.distribution.update(dist)
     if metas:
         res.samples.append({'L1_case': metas[len(metas) // 7]})
@@ -967,6 +969,112 @@ def level1(ctx, res, rng):
     res.corr_errors += errors
     for i in failing:
         res.disagreements.append({'level': 'L1', 'case': metas[i]})
+
+
+def frozen(v):
+    return (type(v).__name__, canon(v))
+
+
+def l1_history(ctx, res, rng, terms, metas, dist):
+    """repeated gen_symbols_samples calls that share ONE constants dict and ONE sample_from dict (same sampler objects),
+    with varying symbol lists, some of which shadow constants.  Every call is judged by the ordinary oracle as if it
+    were the only one, goes through the Coq correspondence, and must leave the caller's arguments as they were."""
+    from mitxgraders import sampling
+    n_hist = 40 if ctx['tier'] == 'quick' else 400
+    functions, suffixes = eval_scope(True)
+    done = 0
+    for g in range(n_hist):
+        names, sf, consts = gen_graph(rng, 'h%d/%d' % (ctx['seed'], g), allow_illtyped=False)
+        consts = dict(consts)
+        # constants carrying the names of some independent symbols (same shape), so that dropping the symbol leaves a closed graph
+        ind = [s for s in names if sf[s][0] != 'dep']
+        for s_ in rng.sample(ind, min(len(ind), rng.randint(1, 2))):
+            t = spec_type(sf[s_])
+            consts[s_] = ['int', rng.randrange(2, 9)] if t[0] == 's' else ['vec', [rng.randrange(1, 5) for _ in range(t[1])]]
+        shadowing = [s for s in names if s in consts]
+        if not shadowing:
+            continue
+        lists = []
+        for step in range(rng.randint(3, 5)):
+            sub = [s for s in names if rng.random() < 0.7]
+            rng.shuffle(sub)
+            lists.append(sub)
+        full = list(names)
+        rng.shuffle(full)
+        lists.insert(rng.randrange(len(lists)), full)                              # every such constant is shadowed once ...
+        lists.append([s for s in names if s not in shadowing])                     # ... and needed as a constant afterwards
+        sampling.set_seed(stable_seed('np', 'hist', ctx['seed'], g) % (2 ** 32))
+        st, sample_from = core.guarded(lambda: {s: make_sampler(s, sf[s]) for s in sf}, seconds=LONG)
+        if st != 'ret':
+            continue
+        shared_consts = {c: const_value(consts[c]) for c in consts}
+        before_consts = {c: frozen(v) for c, v in shared_consts.items()}
+        before_sf = dict(sample_from)
+        before_cfgs = {s: repr(sorted(sample_from[s].config.items(), key=repr)) for s in sample_from if sf[s][0] == 'dep'}
+        samples = rng.choice([1, 2])
+        runs = []
+        history = {'level': 'L1H', 'sf': sf, 'consts': consts, 'samples': samples, 'lists': lists}
+        changed = None
+        for idx, symbols in enumerate(lists):
+            cfg = {'level': 'L1', 'symbols': symbols, 'sf': sf, 'consts': consts, 'samples': samples}
+            arg = list(symbols)
+            del LOG[:]
+            st, out = core.guarded(sampling.gen_symbols_samples, arg, samples, sample_from, functions, suffixes, shared_consts,
+                                   seconds=LONG)
+            log = list(LOG)
+            res.oracle_evals += 1
+            text = None
+            fails = oracle_l1(cfg, st, out, log)
+            if changed is None and {c: frozen(v) for c, v in shared_consts.items()} != before_consts:
+                changed = ('call %d changed the caller\'s constants dict from %r to %r'
+                           % (idx + 1, sorted(before_consts), sorted(shared_consts)))
+            if changed is None and (arg != list(symbols) or set(sample_from) != set(before_sf)
+                                    or any(sample_from[k] is not before_sf[k] for k in before_sf)
+                                    or {s: repr(sorted(sample_from[s].config.items(), key=repr)) for s in before_cfgs} != before_cfgs):
+                changed = 'call %d changed the caller\'s symbol list or sample_from dict' % (idx + 1)
+            if fails:
+                text = 'call %d of the history %r (shared constants %r): %s%s' % (
+                    idx + 1, lists, sorted(consts), fails[0], '' if changed is None else ' [earlier: %s]' % changed)
+            elif changed is not None and idx == len(lists) - 1:
+                text = 'history %r: %s' % (lists, changed)
+            if text:
+                res.witnesses.append({'key': 'L1H:' + cfg_key(history), 'kind': 'gen_symbols_samples-history', 'cfg': history, 'what': text})
+                break
+            n_ind = len([s for s in symbols if sf[s][0] != 'dep'])
+            o, d = obs_term(st, out, samples), draws_term(log, n_ind, samples)
+            if o is not None and d is not None:
+                runs.append('([%s], %s, %s)' % ('; '.join('"%s"' % s for s in symbols), d, o))
+        res.nontrivial.add(('L1H', cfg_key(history)))
+        done += 1
+        if runs:
+            terms.append('(%s, %s, %s, [%s])' % (sf_term(sf), consts_term(consts), core.qlit(eps_for(sf, consts, [])), ';\n     '.join(runs)))
+            metas.append({'label': 'history', 'symbols': names, 'sf': {s: (sf[s] if sf[s][0] != 'dep' else render(fromlist(sf[s][1]))) for s in sf},
+                          'consts': consts, 'harness_analysis': 'history of %d calls' % len(lists), 'orders': len(runs)})
+    dist['L1 call histories on shared arguments'] = done
+
+
+def replay_l1_history(h):
+    from mitxgraders import sampling
+    functions, suffixes = eval_scope(True)
+    sf, consts = h['sf'], h['consts']
+    sample_from = {s: make_sampler(s, sf[s]) for s in sf}
+    shared = {c: const_value(consts[c]) for c in consts}
+    before = {c: frozen(v) for c, v in shared.items()}
+    changed = None
+    for idx, symbols in enumerate(h['lists']):
+        cfg = {'level': 'L1', 'symbols': symbols, 'sf': sf, 'consts': consts, 'samples': h['samples']}
+        del LOG[:]
+        st, out = core.guarded(sampling.gen_symbols_samples, list(symbols), h['samples'], sample_from, functions, suffixes, shared,
+                               seconds=LONG)
+        fails = oracle_l1(cfg, st, out, list(LOG))
+        if changed is None and {c: frozen(v) for c, v in shared.items()} != before:
+            changed = 'call %d changed the caller\'s constants from %r to %r' % (idx + 1, sorted(before), sorted(shared))
+        if fails:
+            return True, 'call %d, gen_symbols_samples(%r, ...) with the shared constants %r -> %s %r\n%s%s' % (
+                idx + 1, symbols, sorted(consts), st, out, fails[0], '' if changed is None else '\n[earlier: %s]' % changed)
+    if changed is not None:
+        return True, changed
+    return False, 'history of %d calls on shared arguments: every call complete and consistent, arguments unchanged' % len(h['lists'])
 
 
 def cfg_tag(names, sf):
@@ -1070,7 +1178,7 @@ L2_HEADS = ['n', 'k', 'ab', 'a']
 L2_INDICES = ['0', '1', '2', '7', '-1', '-3', '10', '12', '-25', '100', '2024']
 
 
-def gen_l2(rng, tag):
+def gen_l2(rng, tag, want_shadowable=False):
     """a FormulaGrader configuration + expressions.  Everything scalar (FormulaGrader forbids arrays in answers)."""
     nv = rng.randint(1, 6)
     variables = rng.sample(L2_VARS, nv)
@@ -1092,6 +1200,14 @@ def gen_l2(rng, tag):
     if rng.random() < 0.15:
         user_consts['e'] = ['float', 2.5]
     user_consts = {k: v for k, v in user_consts.items() if k not in variables}
+    # user constants whose names are instances of a numbered head: a constant unless an expression of the call mentions it
+    shadowable = []
+    for h in heads:
+        if rng.random() < (0.9 if want_shadowable else 0.3):
+            nm = h + '_{' + rng.choice(L2_INDICES) + '}'
+            if nm not in variables and nm not in instances:
+                user_consts[nm] = ['int', rng.randrange(2, 9)]
+                shadowable.append(nm)
     consts = dict(DEFAULT_CONST_SPECS)
     consts.update(user_consts)
     sf, info, topo = {}, {}, []
@@ -1111,6 +1227,8 @@ def gen_l2(rng, tag):
             if instances and rng.random() < 0.4:
                 i_nm = rng.choice(instances)
                 deps.append((i_nm, ('s', 0), 10 * (L2_HEADS.index(is_instance_name(i_nm, heads)) + 2) + 10, 0))
+            if shadowable and rng.random() < (0.7 if want_shadowable else 0.2):
+                deps.append((rng.choice(shadowable), ('s', 0), 60, 0))      # 60 bounds the constant and every head's draws
             cn = [c for c in consts if c not in variables and consts[c][0] in ('int', 'float', 'cplx')]
             if cn and rng.random() < 0.4:
                 c = rng.choice(cn)
@@ -1135,9 +1253,9 @@ def gen_l2(rng, tag):
     if what > 0.8:
         variant = 'cyclic' if what < 0.9 else 'dangling'
         sf = mutate_graph(rng, [v for v in variables], sf, consts, variant)
-    watch = list(variables) + instances + [c for c in consts if c not in variables]
+    watch = list(variables) + instances + [c for c in consts if c not in variables and c not in shadowable]
     rng.shuffle(watch)
-    student_extra = []
+    student_extra = [c for c in shadowable if rng.random() < 0.4]
     for h in heads:
         if rng.random() < 0.4:
             nm = h + '_{' + rng.choice(L2_INDICES) + '}'
@@ -1145,29 +1263,37 @@ def gen_l2(rng, tag):
                 student_extra.append(nm)
     return {'level': 'L2', 'variables': variables, 'numbered': heads, 'sf': sf, 'user_consts': user_consts, 'watch': watch,
             'student_extra': student_extra, 'samples': rng.choice([1, 2, 3]), 'variant': variant, 'metric': metric,
+            'shadowable': shadowable,
             'suppress': any(c in DEFAULT_CONST_SPECS for c in user_consts) or any(v in DEFAULT_CONST_SPECS for v in variables + heads)}
 
 
-def run_l2(cfg, patience=8):
-    """build the grader, call it with the answer itself as student input, observing samples and seen values"""
+def l2_answer(cfg):
+    return 'rec(%s)' % ','.join(cfg['watch']) if cfg['watch'] else '1'
+
+
+def build_l2(cfg):
+    """-> (status, grader, seen): the grader with a recording function whose calls land in `seen`"""
     from mitxgraders import FormulaGrader
     from mitxgraders import sampling
-    from mitxgraders.helpers import math_helpers
     sampling.set_seed(1)
-    seen, calls = [], []
+    seen = []
     watch = cfg['watch']
-    answer = 'rec(%s)' % ','.join(watch) if watch else '1'
-    student = answer + ''.join('+0*%s' % nm for nm in cfg['student_extra'])
 
     def build():
         sample_from = {s: make_sampler(s, cfg['sf'][s]) for s in cfg['sf']}
-        return FormulaGrader(answers=answer, variables=list(cfg['variables']), numbered_vars=list(cfg['numbered']),
+        return FormulaGrader(answers=l2_answer(cfg), variables=list(cfg['variables']), numbered_vars=list(cfg['numbered']),
                              sample_from=sample_from, user_constants={c: const_value(v) for c, v in cfg['user_consts'].items()},
                              user_functions=dict(USER_FUNCS, **({'rec': make_recorder(len(watch), seen)} if watch else {})),
                              metric_suffixes=bool(cfg.get('metric')), samples=cfg['samples'], suppress_warnings=cfg['suppress'])
     st, g = core.guarded(build, seconds=LONG)
-    if st != 'ret':
-        return 'construct-' + st, g, seen, calls, []
+    return st, g, seen
+
+
+def call_l2(g, seen, cfg, patience=8):
+    """one submission (the answer itself plus 0*name for every extra name) on an existing grader"""
+    from mitxgraders.helpers import math_helpers
+    calls = []
+    student = l2_answer(cfg) + ''.join('+0*%s' % nm for nm in cfg['student_extra'])
     orig = math_helpers.gen_symbols_samples
 
     def wrapped(symbols, samples, sample_from, functions, suffixes, constants):
@@ -1180,14 +1306,52 @@ def run_l2(cfg, patience=8):
             raise
         return rec['out']
     del LOG[:]
+    del seen[:]
     math_helpers.gen_symbols_samples = wrapped
     try:
         st, out = core.guarded(g, None, student, seconds=patience)
     finally:
         math_helpers.gen_symbols_samples = orig
+    return st, out, calls, list(LOG)
+
+
+def run_l2(cfg, patience=8):
+    """build the grader, call it with the answer itself as student input, observing samples and seen values"""
+    st, g, seen = build_l2(cfg)
+    if st != 'ret':
+        return 'construct-' + st, g, seen, [], []
+    st, out, calls, log = call_l2(g, seen, cfg, patience)
     if st == 'timeout' and confirm_timeout(patience):
         return run_l2(cfg, patience=LONG)
-    return st, out, seen, calls, list(LOG)
+    return st, out, seen, calls, log
+
+
+def snapshot_consts(d):
+    return {k: (type(v).__name__, canon(v)) for k, v in d.items()}
+
+
+def run_l2_history(cfg):
+    """one grader, several submissions (cfg['history'] = list of student_extra lists).  Every submission is judged by the
+    ordinary oracle as if it were the only one; the grader's own constants must not change between submissions.
+    Returns the list of failure texts (empty when fine)."""
+    st, g, seen = build_l2(cfg)
+    if st != 'ret':
+        return ['grader construction failed: %r' % (g,)]
+    before = snapshot_consts(g.constants)
+    before_cfg = snapshot_consts(g.config['user_constants'])
+    changed = None
+    for idx, extra in enumerate(cfg['history']):
+        step = dict(cfg, student_extra=list(extra))
+        st, out, calls, log = call_l2(g, seen, step, patience=LONG)
+        fails = oracle_l2(step, st, out, list(seen), log)
+        if changed is None and (snapshot_consts(g.constants) != before or snapshot_consts(g.config['user_constants']) != before_cfg):
+            changed = ('submission %d changed the grader\'s constants from %r to %r' % (idx + 1, sorted(before), sorted(g.constants)))
+        if fails:
+            return ['submission %d of %r (names mentioned besides the answer: %r): %s%s'
+                    % (idx + 1, cfg['history'], extra, fails[0], '' if changed is None else ' [earlier: %s]' % changed)]
+    if changed is not None:
+        return ['submissions %r: %s' % (cfg['history'], changed)]
+    return []
 
 
 def oracle_l2(cfg, st, out, seen, log):
@@ -1333,6 +1497,27 @@ def level2(ctx, res, rng):
                       'symbols_seen': call['symbols'], 'variant': cfg['variant']})
         res.nontrivial.add(('L2', cfg_key(cfg)))
     sib_cases(ctx, res, rng, dist, terms, metas)
+    n_hist = 40 if ctx['tier'] == 'quick' else 300
+    for g in range(n_hist):
+        for attempt in range(20):
+            cfg = gen_l2(rng, 'l2h/%d/%d/%d' % (ctx['seed'], g, attempt), want_shadowable=True)
+            if cfg['variant'] == 'ok' and cfg['shadowable']:
+                break
+        else:
+            continue
+        pool = list(cfg['shadowable']) + [h + '_{' + i + '}' for h in cfg['numbered'] for i in ('3', '-8')
+                                          if h + '_{' + i + '}' not in cfg['variables'] and h + '_{' + i + '}' not in cfg['watch']]
+        hist = []
+        for step in range(rng.randint(3, 5)):
+            hist.append(sorted(x for x in pool if rng.random() < 0.5))
+        hist.insert(rng.randrange(len(hist)), list(cfg['shadowable']))     # at least once every such constant is shadowed ...
+        hist.append([])                                                      # ... and later is needed as a constant again
+        cfg = dict(cfg, level='L2H', history=hist, student_extra=[])
+        res.oracle_evals += len(hist)
+        for text in run_l2_history(cfg):
+            res.witnesses.append({'key': 'L2H:' + cfg_key(cfg), 'kind': 'grader-history', 'cfg': cfg, 'what': text})
+        res.nontrivial.add(('L2H', cfg_key(cfg)))
+    dist['L2 submission histories on one grader'] = n_hist
     res.distribution.update(dist)
     if metas:
         res.samples.append({'L2_case': metas[len(metas) // 5]})
@@ -1557,6 +1742,13 @@ def replay(w):
         bad = h is not None and (m is None or m.groups()[0] != s)
         return bad, 'numbered_vars_regexp(%r).match(%r) -> %r; instance of %r by definition' % (heads, s, m and m.groups(), h)
     cfg = w['cfg']
+    if kind == 'gen_symbols_samples-history':
+        return replay_l1_history(cfg)
+    if kind == 'grader-history':
+        fails = run_l2_history(cfg)
+        return bool(fails), 'FormulaGrader(variables=%r, numbered_vars=%r, user_constants=%r, sample_from=%r), submissions %r\n%s' % (
+            cfg['variables'], cfg['numbered'], cfg['user_consts'],
+            {s: (v if v[0] != 'dep' else render(fromlist(v[1]))) for s, v in cfg['sf'].items()}, cfg['history'], '\n'.join(fails[:2]))
     if kind == 'gen_symbols_samples':
         st, out, log = run_l1(cfg)
         fails = oracle_l1(cfg, st, out, log)
